@@ -37,6 +37,7 @@ type specStep struct {
 	G string `json:"g"`
 	// optional fault / choice annotations
 	F string `json:"f,omitempty"`
+	X uint64 `json:"x,omitempty"`
 }
 
 type specVer struct {
@@ -324,6 +325,24 @@ func (rs *runState) execStep(s specStep) error {
 	if s.P == "hub" {
 		return rs.execHubStep(s)
 	}
+	if s.A == "CompactReq" {
+		return rs.execCompact(s)
+	}
+	switch s.F {
+	case "err", "unka", "unkn":
+		// the engine answer the specification chose for this commit
+		kind := map[string]string{"err": "err", "unka": "unk_applied", "unkn": "unk_notapplied"}[s.F]
+		proc := s.P
+		fired := false
+		env.Store.CommitFault = func(p string, nth int, ops []gate.Event) *gate.Fault {
+			if p == proc && !fired {
+				fired = true
+				return &gate.Fault{Kind: kind}
+			}
+			return nil
+		}
+		defer func() { env.Store.CommitFault = nil }()
+	}
 	if _, isWriter := rs.b.WOps[s.P]; isWriter && firstWriterAction[s.A] {
 		st := env.Sched.Peek(s.P)
 		if st.Exists && !st.Finished {
@@ -354,12 +373,32 @@ func (rs *runState) execStep(s specStep) error {
 	return err
 }
 
+// execCompact issues one compaction request and lets it run to completion.
+func (rs *runState) execCompact(s specStep) error {
+	env := rs.env
+	go func() {
+		env.Sched.Register(s.P)
+		minunc := backend.VerifRetryMinRevision(env.B)
+		env.Rec.Log(gate.Event{"e": "CInvoke", "p": s.P, "req": gate.Clip(s.X)})
+		resp, err := env.B.Compact(context.Background(), s.X)
+		hdr := uint64(0)
+		if err == nil {
+			hdr = resp.Header.GetRevision()
+		}
+		env.Rec.Log(gate.Event{"e": "CReturn", "p": s.P, "req": gate.Clip(s.X), "hdr": gate.Clip(hdr), "err": errStr(err), "minunc": gate.Clip(minunc)})
+		env.Sched.Finish(s.P)
+	}()
+	_, err := env.Sched.RunToStop(s.P, noStops, rs.cfg.Timeout)
+	return err
+}
+
 // finishAll drives everything to quiescence at process level (used after a divergence and at
 // the end of every behaviour).
 func (rs *runState) finishAll() {
 	env := rs.env
 	to := rs.cfg.Timeout
-	for round := 0; round < 200; round++ {
+	deadline := time.Now().Add(6 * time.Second)
+	for round := 0; round < 200 && time.Now().Before(deadline); round++ {
 		progressed := false
 		// writers
 		names := make([]string, 0, len(rs.b.WOps))
@@ -432,6 +471,9 @@ type replayReport struct {
 	Samples       []string       `json:"samples"`
 	MismatchNotes []string       `json:"mismatch_notes"`
 	Nontrivial    int            `json:"nontrivial"`
+	OkOps         int            `json:"ok_ops"`
+	FailedOps     int            `json:"failed_ops"`
+	ErrorOps      int            `json:"error_ops"`
 	WallS         float64        `json:"wall_s"`
 	Engine        string         `json:"engine"`
 }
@@ -445,6 +487,9 @@ func (rs *runState) compareFinal() []string {
 	f := rs.b.Final
 	if got := env.B.GetCurrentRevision(); got != f.Committed {
 		diffs = append(diffs, fmt.Sprintf("committed: real %d spec %d", got, f.Committed))
+	}
+	if got := env.CompactRecord(); got != f.Floor {
+		diffs = append(diffs, fmt.Sprintf("compaction record: real %d spec %d", got, f.Floor))
 	}
 	dump, err := env.Dump()
 	if err != nil {
@@ -544,12 +589,18 @@ func replayOne(cfg replayCfg, eng *kb.Engine, b *behaviour, rep *replayReport) [
 		rep.Errors++
 		return nil
 	}
+	budget := time.Now().Add(8 * time.Second)
 	for i, s := range b.Steps {
 		rep.Steps++
 		rep.ActionCount[s.A]++
+		if rs.diverged && time.Now().After(budget) {
+			break
+		}
 		if err := rs.execStep(s); err != nil {
 			if !rs.diverged {
 				rs.diverged = true
+				rs.cfg.Timeout = 300 * time.Millisecond // the schedule no longer applies: do not wait long for gates
+				budget = time.Now().Add(5 * time.Second)
 				rs.note("step %d (%s %s): %v", i, s.P, s.A, err)
 			}
 		}
@@ -569,6 +620,18 @@ func replayOne(cfg replayCfg, eng *kb.Engine, b *behaviour, rep *replayReport) [
 	}
 	env.Rec.Log(gate.Event{"e": "Quiesce", "committed": gate.Clip(env.B.GetCurrentRevision()), "returned": allReturned,
 		"retryq": backend.VerifRetryQueueSize(env.B)})
+	for _, rl := range rs.results {
+		for _, r := range rl {
+			switch {
+			case r.Err != "":
+				rep.ErrorOps++
+			case r.Succ:
+				rep.OkOps++
+			default:
+				rep.FailedOps++
+			}
+		}
+	}
 	diffs := rs.compareFinal()
 	switch {
 	case rs.diverged:
